@@ -1,2 +1,3 @@
 pub mod statics;
 pub mod multi;
+pub mod dynamic;
